@@ -1,10 +1,14 @@
 import RxModel.Driver.Proto
 import RxModel.Conc.StatusLts
 import RxModel.Conv.Convert
+import RxModel.Conv.Dropped
 import RxModel.Conv.StatusTake
 /-
   Runner of suite `convert` (C14): same lines as harness/src/suites/convert_suite.rs.
   Field `kind` = future | stream | collectfuture | status | statustake | statusrace | statuswait;
+  kinds future / stream / collectfuture / status also take the event `drop` (the future / stream under
+  test is dropped: `dropped`; later polls print `na`; RxModel/Conv/Dropped.lean) — a send that the
+  real observer `expect`s and that fails is the line `PANIC` (the case stops there);
   kind statustake (and statuswait with a cutter): fields `src (hot)|(create)|(iter k)`,
   `cutter (id)|(take n)|(first)|(takewhile p)|(takewhilei p)` (RxModel/Conv/StatusTake.lean);
   field `model` = code | fixed (default `code`: the code as it is in /repo).
@@ -48,15 +52,27 @@ def showStOut : StOut → String
   | .ready => "poll=Ready"
   | .status a b c => s!"closed={cb01 a} completed={cb01 b} error={cb01 c}"
 
-/-- Feed the events one by one, printing one line per event. -/
-def goConv {σ ω : Type} (id : String) (step : σ → Ev → σ × ω) (show_ : ω → String) :
-    σ → Nat → List (List SExp) → List String
+def parseDEv (ev : List SExp) : Option DEv :=
+  match ev with
+  | .atom "drop" :: _ => some .drop
+  | _ => (parseConvEv ev).map DEv.ev
+
+/-- Feed the events one by one, printing one line per event; `failed` = a send the observer
+    `expect`s has failed (panic). -/
+def goConvD {σ ω : Type} (id : String) (step : DW σ → DEv → DW σ × Option ω) (show_ : ω → String)
+    (failed : σ → Bool) : DW σ → Nat → List (List SExp) → List String
   | _, _, [] => []
-  | w, k, ev :: r =>
-    match parseConvEv ev with
+  | d, k, ev :: r =>
+    match parseDEv ev with
     | some x =>
-      let (w', o) := step w x
-      s!"{id}.{k} {show_ o}" :: goConv id step show_ w' (k + 1) r
+      let (d', o) := step d x
+      if failed d'.w then [s!"{id}.{k} PANIC"]
+      else
+        let line := match o, x with
+          | some o, _ => show_ o
+          | none, .drop => "dropped"
+          | none, _ => "na"
+        s!"{id}.{k} {line}" :: goConvD id step show_ failed d' (k + 1) r
     | none => [s!"{id}.{k} BADEV"]
 
 def parseTEv (ev : List SExp) : Option TEv :=
@@ -116,10 +132,10 @@ def runConvertCase (id : String) (field : String → List SExp) (events : List (
     | e :: _ => if e.head == "fixed" then .fixed else .code
     | [] => .code
   match kind with
-  | "future" => goConv id (FutW.step m) showFOut {} 0 events
-  | "collectfuture" => goConv id (CFW.step m) showFOut {} 0 events
-  | "stream" => goConv id (StrW.step m) showSOut {} 0 events
-  | "status" => goConv id StatW.step showStOut {} 0 events
+  | "future" => goConvD id (futDStep m) showFOut (·.chan.sendFailed) {w := {}} 0 events
+  | "collectfuture" => goConvD id (cfDStep m) showFOut (·.chan.sendFailed) {w := {}} 0 events
+  | "stream" => goConvD id (strDStep m) showSOut (·.chan.sendFailed) {w := {}} 0 events
+  | "status" => goConvD id statDStep showStOut (fun _ => false) {w := {}} 0 events
   | "statustake" => goTake id (parseTSrc (field "src")) (parseCutter (field "cutter")) {} 0 events
   | "statusrace" =>
     -- `wait_for_end` racing with the producer's terminal, the producer running
